@@ -257,3 +257,90 @@ func c02SpanningResume(c *core.Check) {
 	})
 	r.Cond(bad == "", key, p.Pos(fn.Pos()), fmt.Sprintf("%d reads of it, none reaches Unpack", len(srcs)), "it reaches the Unpack at "+bad+": its first key, an index among the block's children, is added to the index of the block in the multi-column box — the next page resumes at an unrelated child (content lost, or slice bounds out of range)")
 }
+
+// c02FirstLetter (R11): the letters taken out of the text for ::first-letter are put back in the tree.
+// firstLetterToBox cuts the first letter off the first text box and builds a box for it; that box must become a
+// child of the box being processed (the line, or the inline box that holds the text).  Structurally: after every
+// construction of a first-letter inline or block box in firstLetterToBox, the children of the parameter box are
+// written; and nowhere in the layout and box-building code are children stored into a text box, which is a leaf.
+func c02FirstLetter(c *core.Check) {
+	p := c.Prog
+	r := c.Rule("R11", "the first letter stays in the tree: in firstLetterToBox every inline or block box built for the letter is followed by a write to the children of the box being processed (box.Box().Children), and no function of html/layout or html/boxes stores children into a text box", 3)
+	fn := p.Fn("html/layout", "firstLetterToBox")
+	if fn == nil || len(fn.Params) < 2 {
+		r.Anchor("html/layout.firstLetterToBox")
+		return
+	}
+	boxParam := fn.Params[1]
+	isOwnChildren := func(addr ssa.Value) bool {
+		if ia, ok := addr.(*ssa.IndexAddr); ok {
+			if ld, ok := ia.X.(*ssa.UnOp); ok {
+				addr = ld.X
+			}
+		}
+		fa, ok := addr.(*ssa.FieldAddr)
+		if !ok || core.FieldName(fa) != "Children" {
+			return false
+		}
+		call, ok := fa.X.(*ssa.Call)
+		return ok && call.Call.IsInvoke() && call.Call.Method.Name() == "Box" && call.Call.Value == ssa.Value(boxParam)
+	}
+	n := 0
+	core.Instrs(fn, func(in ssa.Instruction) {
+		call, ok := in.(*ssa.Call)
+		if !ok {
+			return
+		}
+		callee := call.Call.StaticCallee()
+		if callee == nil || (callee.Name() != "NewInlineBox" && callee.Name() != "NewBlockBox") {
+			return
+		}
+		n++
+		key := fmt.Sprintf("html/layout.firstLetterToBox | %s #%d", callee.Name(), n)
+		attached := false
+		core.Instrs(fn, func(in2 ssa.Instruction) {
+			st, ok := in2.(*ssa.Store)
+			if !ok || !isOwnChildren(st.Addr) {
+				return
+			}
+			if st.Block() == call.Block() && st.Pos() > call.Pos() || st.Block() != call.Block() && call.Block().Dominates(st.Block()) {
+				attached = true
+			}
+		})
+		r.Cond(attached, key, p.Pos(call.Pos()), "followed by a write to the children of the box being processed", "the box built for the first letter is never written into the children of the box being processed: the letter was removed from the text and is not laid out (`Hello world` is drawn as `ello world`)")
+	})
+	if n == 0 {
+		r.Unknown("html/layout.firstLetterToBox | letter boxes", p.Pos(fn.Pos()), "no construction of an inline or block box")
+	}
+	// text boxes are leaves
+	bad := ""
+	for _, pkg := range []string{"html/layout", "html/boxes"} {
+		for _, f := range p.FuncsOfPkg(pkg) {
+			if f.Blocks == nil {
+				continue
+			}
+			core.Instrs(f, func(in ssa.Instruction) {
+				st, ok := in.(*ssa.Store)
+				if !ok {
+					return
+				}
+				fa, ok := st.Addr.(*ssa.FieldAddr)
+				if !ok || core.FieldName(fa) != "Children" {
+					return
+				}
+				if k, ok := st.Val.(*ssa.Const); ok && k.IsNil() {
+					return
+				}
+				// the BoxFields embedded in a *TextBox
+				if inner, ok := fa.X.(*ssa.FieldAddr); ok {
+					if pt, ok := inner.X.Type().(*types.Pointer); ok {
+						if nm, ok := pt.Elem().(*types.Named); ok && nm.Obj().Name() == "TextBox" {
+							bad = core.FuncName(f) + " at " + p.Pos(st.Pos())
+						}
+					}
+				}
+			})
+		}
+	}
+	r.Cond(bad == "", "html/layout, html/boxes | children of text boxes", "-", "no store of children into a text box", "children are stored into a text box in "+bad+": a text box is a leaf, what is attached to it is never laid out or drawn")
+}
